@@ -10,7 +10,7 @@ use std::{mem::forget, time::Duration};
 const NOW: u64 = 1000;
 const A: TransmissionMode = TransmissionMode::Acknowledged;
 
-fn sender_in(phase: VSendState, ch: &Chans) -> SendTransaction<ModelFs> {
+fn sender_in(phase: VSendState, armed: bool, ch: &Chans) -> SendTransaction<ModelFs> {
     link_libc();
     verif::set_now(Duration::from_secs(NOW));
     let content: [u8; CAP] = kani::any();
@@ -27,8 +27,8 @@ fn sender_in(phase: VSendState, ch: &Chans) -> SendTransaction<ModelFs> {
             set_pos(SRC, 3);
             p.sent_file_size = 3;
             p.checksum = Some(0);
-            p.eof = Some((EndOfFile { condition: Condition::NoError, checksum: 0, file_size: 3, fault_location: None }, kani::any()));
-            if kani::any() {
+            p.eof = Some((EndOfFile { condition: Condition::NoError, checksum: 0, file_size: 3, fault_location: None }, armed));
+            if !armed {
                 p.naks.push_back(SegmentRequestForm { start_offset: 0, end_offset: 2 });
             }
             p.timer.ack = counter(3, 2, NOW - 1, 0, false, false);
@@ -39,7 +39,7 @@ fn sender_in(phase: VSendState, ch: &Chans) -> SendTransaction<ModelFs> {
             p.checksum = Some(0);
             p.eof = Some((
                 EndOfFile { condition: Condition::CancelReceived, checksum: 0, file_size: 3, fault_location: Some(VariableID::from(SRC_ID)) },
-                kani::any(),
+                armed,
             ));
             p.timer.ack = counter(3, 2, NOW - 1, 0, false, false);
         }
@@ -60,13 +60,14 @@ fn allowed_while_suspended(p: &PDU) -> bool {
         PDUPayload::Directive(Operations::Ack(_)) | PDUPayload::Directive(Operations::KeepAlive(_)) | PDUPayload::Directive(Operations::Prompt(_))
     )
 }
-fn send_suspended_transmits(phase: VSendState) {
+fn send_suspended_transmits(phase: VSendState, armed: bool) {
     let ch = chans();
-    let mut t = sender_in(phase, &ch);
+    let mut t = sender_in(phase, armed, &ch);
     t.suspend().unwrap();
     assert!(verif::send_state(&t) == TransactionState::Suspended && verif::ind_count_kind(verif::K_SUSPENDED) == 1);
     if verif::send_has_pdu_to_send(&t) {
-        match send_send(&mut t, &ch) {
+        let out9 = send_send(&mut t, &ch);
+        match &out9 {
             Some((_, pdu)) => {
                 let ok = allowed_while_suspended(&pdu);
                 forget(pdu);
@@ -74,27 +75,30 @@ fn send_suspended_transmits(phase: VSendState) {
             }
             None => {}
         }
+        forget(out9);
     }
     kani::cover!(true, "end");
     forget(t);
     forget(ch);
 }
 //# funcs=SendTransaction::suspend,has_pdu_to_send,send_pdu; bound=sender suspended in phase SendMetadata; stubs=S1,S2,S3,S5
-th!(c19_q_send_suspended_metadata, 12, { send_suspended_transmits(VSendState::SendMetadata) });
+th!(c19_q_send_suspended_metadata, 12, { send_suspended_transmits(VSendState::SendMetadata, true) });
 //# funcs=SendTransaction::suspend,has_pdu_to_send,send_pdu; bound=sender suspended in phase SendData (3-byte file); stubs=S1,S2,S3,S5
-th!(c19_q_send_suspended_data, 12, { send_suspended_transmits(VSendState::SendData) });
-//# funcs=SendTransaction::suspend,has_pdu_to_send,send_pdu; bound=sender suspended in phase SendEof (EOF armed or not, 0-1 queued NAK request); stubs=S1,S2,S3,S5
-th!(c19_q_send_suspended_eof, 12, { send_suspended_transmits(VSendState::SendEof) });
-//# funcs=SendTransaction::suspend,has_pdu_to_send,send_pdu; bound=sender suspended in phase Cancelled (EOF(cancel) armed or not); stubs=S1,S2,S3
-th!(c19_q_send_suspended_cancelled, 12, { send_suspended_transmits(VSendState::Cancelled) });
+th!(c19_q_send_suspended_data, 12, { send_suspended_transmits(VSendState::SendData, true) });
+//# funcs=SendTransaction::suspend,has_pdu_to_send,send_pdu,send_eof; bound=sender suspended in phase SendEof with the EOF armed; stubs=S1,S2,S3,S5
+th!(c19_q_send_suspended_eof, 12, { send_suspended_transmits(VSendState::SendEof, true) });
+//# funcs=SendTransaction::suspend,has_pdu_to_send,send_pdu,send_missing_data; bound=sender suspended in phase SendEof with one queued NAK request; stubs=S1,S2,S3,S5
+th!(c19_q_send_suspended_retransmission, 12, { send_suspended_transmits(VSendState::SendEof, false) });
+//# funcs=SendTransaction::suspend,has_pdu_to_send,send_pdu; bound=sender suspended in phase Cancelled with EOF(cancel) armed; stubs=S1,S2,S3
+th!(c19_q_send_suspended_cancelled, 12, { send_suspended_transmits(VSendState::Cancelled, true) });
 //# funcs=SendTransaction::suspend,has_pdu_to_send,send_pdu,send_ack; bound=sender suspended in phase Finished (ACK(Finished) armed); stubs=S1,S2,S3
-th!(c19_q_send_suspended_finished, 12, { send_suspended_transmits(VSendState::Finished) });
+th!(c19_q_send_suspended_finished, 12, { send_suspended_transmits(VSendState::Finished, true) });
 
 //# funcs=SendTransaction::suspend,handle_timeout,until_timeout,resume,Counter::pause/restart; bound=sender suspended in SendEof or Cancelled, clock advanced by up to 1000 s; stubs=S1,S2,S3,S5
 th!(c19_q_send_suspended_timers, 12, {
     let ch = chans();
     let phase = if kani::any() { VSendState::SendEof } else { VSendState::Cancelled };
-    let mut t = sender_in(phase, &ch);
+    let mut t = sender_in(phase, false, &ch);
     t.suspend().unwrap();
     verif::ind_reset();
     let dt: u64 = kani::any();
@@ -152,7 +156,7 @@ fn receiver_in(phase: VRecvState, what: u8, ch: &Chans) -> RecvTransaction<Model
                     filestore_response: vec![],
                     fault_location: None,
                 },
-                kani::any(),
+                true,
             ));
             p.timer.ack = counter(3, 2, NOW - 1, 0, false, false);
         }
@@ -165,7 +169,8 @@ fn recv_suspended_transmits(phase: VRecvState, what: u8) {
     t.suspend().unwrap();
     assert!(verif::recv_state(&t) == TransactionState::Suspended && verif::ind_count_kind(verif::K_SUSPENDED) == 1);
     if verif::recv_has_pdu_to_send(&t) {
-        match recv_send(&mut t, &ch) {
+        let out10 = recv_send(&mut t, &ch);
+        match &out10 {
             Some((_, pdu)) => {
                 let ok = allowed_while_suspended(&pdu);
                 forget(pdu);
@@ -173,6 +178,7 @@ fn recv_suspended_transmits(phase: VRecvState, what: u8) {
             }
             None => {}
         }
+        forget(out10);
     }
     kani::cover!(true, "end");
     forget(t);
